@@ -43,6 +43,12 @@ class ArmDomain(FactDomain):
         self.fi = fi
         self.none_params = {p for p, d in fi.defaults.items() if isinstance(d, ast.Constant) and d.value is None}
 
+    def inliner(self):
+        if getattr(self, '_il', None) is None:
+            from ..engine.inline import Inliner
+            self._il = Inliner(self.fi)
+        return self._il
+
     def loop_may_skip(self, node, state):
         it = src(node.iter)
         if it.startswith('range(') and ('num_dof' in it or 'len(self._theta)' in it):
@@ -73,7 +79,7 @@ class ArmDomain(FactDomain):
             if '_end_effector_home' in src(value) and '_original' not in src(value):
                 marks = {m for m in marks if m[0] != 'orig'}
         if f == BODY and value is not None:
-            txt = src(value)
+            txt = src(self.inliner().expand(value))         # a hoisted Adjoint(inv(home)) is the same refresh
             if 'Adjoint' in txt and '_end_effector_home' in txt and 'inv()' in txt and 'screw_list' in txt:
                 marks = {m for m in marks if m[0] != 'body'}
             else:
